@@ -29,6 +29,7 @@ import "os"
 import "strconv"
 import "strings"
 import "unsafe"
+import "github.com/pbenner/autodiff/verifhook"
 /* matrix type declaration
  * -------------------------------------------------------------------------- */
 type SparseReal64Matrix struct {
@@ -272,6 +273,7 @@ func (matrix *SparseReal64Matrix) Tip() {
     }
     k = cycle
     for {
+      verifhook.Tick("tip.cycle")
       if k != mn-1 {
         k = matrix.rows*k % (mn-1)
       }
